@@ -59,7 +59,7 @@ class ParseCase:
         self.name = '%s_L%d_o%d%d%d%s%s' % (g.name, L, ws, nl, verbose, tag, '' if variant == 'plain' else '_%s%d' % (variant, ctxkind))
         self.defs = ['LEN=%d' % L, 'MAXMSG=%d' % self.maxmsg, 'MAXRED=%d' % self.maxred, 'MAXTERM=%d' % self.maxterm,
                      'OPT_WS=%d' % ws, 'OPT_NL=%d' % nl, 'OPT_VERBOSE=%d' % verbose,
-                     'OPT_MASK=%s' % ('0xff00' if variant == 'ctx' else '0xffff00' if variant == 'slice' else '0'), 'OPT_FIXED=%d' % (ws | (nl << 1) | (verbose << 2)), 'LEXMAX=%d' % max(L, 1),
+                     'OPT_MASK=%s' % ('0xff00' if variant == 'ctx' else '0xffff00' if variant == 'slice' else '0xffffff00' if variant == 'hist' else '0'), 'OPT_FIXED=%d' % (ws | (nl << 1) | (verbose << 2)), 'LEXMAX=%d' % max(L, 1),
                      'RSTEPS=%d' % (b['steps'] + 2), 'RSTK=%d' % (b['depth'] + 2)] + list(extra_defs)
         if self.hashlog: self.defs += ['HASHLOG', 'MAXST=%d' % self.maxst]
         self.wd = wd
@@ -156,6 +156,7 @@ class ParseCase:
             if self.variant == 'anslex':
                 extra = {'ANS_IDX': [rnd.choice(list(range(self.g.nt)) + [0xffff]) for _ in range(self.L)], 'ANS_LEN': [rnd.randint(1, max(1, self.L - i)) for i in range(self.L)]}
             if self.variant == 'ctx': opts = (self.ws | (self.nl << 1) | (self.verbose << 2)) | (rnd.randrange(256) << 8)
+            if self.variant == 'hist': opts = (self.ws | (self.nl << 1) | (self.verbose << 2)) | (rnd.randrange(1 << 24) << 8)
             if self.variant == 'slice': opts = (self.ws | (self.nl << 1) | (self.verbose << 2)) | (rnd.choice([32, 10, 9, 97, 0, 255]) << 8) | (rnd.choice([32, 10, 97, 0]) << 16)
             a = self.run_native('real', inp, opts, extra); b = self.run_native('xlat', inp, opts, extra); n += 1
             if a is not None and b is not None and a['out'] is None and b['out'] is None and a['rc'] == b['rc'] and a['rc'] < 0: continue   # both builds crash the same way (a listed finding)
